@@ -13,7 +13,7 @@ import json
 import os
 import sys
 sys.path.insert(0, os.path.dirname(os.path.dirname(os.path.abspath(__file__))))
-from rac.common import Rac, PRELUDE
+from rac.common import Rac, PRELUDE, deadline, DEADLINE_SRC
 from rac import optgen as G
 
 SRC = '''
@@ -127,16 +127,17 @@ def main():
                     tw=[rac.rng.choice([None, 2.0, 0.5]) for _ in range(nk)], lim=[rac.rng.choice([None, [-50.0, 50.0], [-50, 50], [-7, 9]]) for _ in range(nk)],     # (limits given as floats or as plain integers)
                     w=[rac.rng.choice([None, 2.0, 0.5, 10.0, 4.0]) for _ in range(nk)], ms=[None] * nk, step=1e-7, kact=[True] * nk, tact=[True] * nk)
         for broyden in (False, True):
-            scr = PRELUDE + G.SRC + SRC + f"prob = {prob!r}\nopt, d, act = build(prob)\nopt.step(1, broyden={broyden})\nkn = np.array(knobs_of(d, prob)); sol = np.array({sol.tolist()!r})\n" \
+            scr = PRELUDE + DEADLINE_SRC + G.SRC + SRC + f"prob = {prob!r}\nopt, d, act = build(prob)\nopt.step(1, broyden={broyden})\nkn = np.array(knobs_of(d, prob)); sol = np.array({sol.tolist()!r})\n" \
                 "print(kn, sol)\nassert np.allclose(kn, sol, rtol=1e-5, atol=1e-5), (kn, sol)\nopt.solve()\n"
             try:
-                opt, d, act = build(prob)
-                opt.step(1, broyden=broyden)
-                kn = np.array(knobs_of(d, prob))
-                ok1 = np.allclose(kn, sol, rtol=1e-5, atol=1e-5)
-                opt2, d2, _ = build(prob)
-                opt2.solve(broyden=broyden)
-                ok2 = all(within_tol(prob, knobs_of(d2, prob), [True] * nk))
+                with deadline(60):
+                    opt, d, act = build(prob)
+                    opt.step(1, broyden=broyden)
+                    kn = np.array(knobs_of(d, prob))
+                    ok1 = np.allclose(kn, sol, rtol=1e-5, atol=1e-5)
+                    opt2, d2, _ = build(prob)
+                    opt2.solve(broyden=broyden)
+                    ok2 = all(within_tol(prob, knobs_of(d2, prob), [True] * nk))
             except Exception as ex:     # noqa
                 ok1, ok2, kn = False, False, repr(ex)
             rac.case((json.dumps(prob), broyden), sample=dict(knobs=nk, weights=prob["w"], broyden=broyden))
@@ -196,6 +197,19 @@ def main():
         x = rng.uniform(-1, 1, size=nk)
         lo, hi = sorted([rac.rng.uniform(-5, 5), rac.rng.uniform(-5, 5)])
         view = mf.get_merit_function(rescale_x=(lo, hi + 0.1), check_limits=False)
+        # the conversions return NEW arrays: a float64 array handed in is the caller's (the solver's iterate) and must come back unchanged
+        k_in, x_in = k.copy(), x.copy()
+        held = []
+        for nm_, fn_, arg_, ref_ in (("_x_to_knobs", mf._x_to_knobs, x, x_in), ("_knobs_to_x", mf._knobs_to_x, k, k_in),
+                                     ("view._scaled_to_native", view._scaled_to_native, x, x_in), ("view._scaled_from_native", view._scaled_from_native, x, x_in)):
+            out_ = fn_(arg_)
+            if not np.array_equal(arg_, ref_) or out_ is arg_ or np.shares_memory(np.asarray(out_), arg_):
+                held.append(nm_)
+        if held:
+            rac.fail(f"scaling argument altered {n_}", f"C16 {held} changed (or returned a view of) the float64 array it was given (weights {prob['w']})",
+                     PRELUDE + G.SRC + f"prob = {prob!r}\nopt, d, act = build(prob)\nmf = opt._err\nx = np.array({x.tolist()!r}); x0 = x.copy()\nout = mf._x_to_knobs(x)\n"
+                     "assert np.array_equal(x, x0) and not np.shares_memory(out, x), ('_x_to_knobs altered its argument', x, x0)\nk = x0.copy(); out = mf._knobs_to_x(k)\n"
+                     "assert np.array_equal(k, x0) and not np.shares_memory(out, k), ('_knobs_to_x altered its argument', k, x0)\n", "MeritFunctionForMatch._x_to_knobs")
         r1 = mf._x_to_knobs(mf._knobs_to_x(k))
         r2 = mf._knobs_to_x(mf._x_to_knobs(x))
         r3 = view._scaled_to_native(view._scaled_from_native(x))
